@@ -17,6 +17,8 @@ pub enum FileKind {
     /// relative symlink to another file of the tree; `chunks[0]` holds the target's path
     /// (relative to the workspace)
     SymlinkToFile,
+    /// symlink to its own parent directory (a loop when links are followed)
+    SymlinkLoop,
 }
 
 #[derive(Clone, Debug, Serialize, Deserialize, PartialEq, Eq, Hash)]
@@ -91,6 +93,10 @@ pub struct Inv {
     /// may end in '/'); in single-file mode the directory part of the output file
     #[serde(default)]
     pub out_sub: String,
+    /// something in the way at the output location: 0 = nothing, 1 = a directory where the output
+    /// file should go (single-file mode) / a regular file where the output folder should be
+    #[serde(default)]
+    pub obstacle: u8,
 }
 
 impl Inv {
